@@ -45,10 +45,10 @@ TInit ==
 Is(e) == More /\ Ev.ev = e
 
 \* split.send.pre(b) / split.errsend.pre / split.scan.ctx : the three outcomes of the scan loop
-EScan == /\ Is("scan") /\ SplitScan /\ pc'[Split] = "send" /\ item'[Split] = Ev.b /\ Adv /\ Keep
+EScan == /\ Is("scan") /\ SplitScanCore(FALSE) /\ pc'[Split] = "send" /\ item'[Split] = Ev.b /\ Adv /\ Keep
 EScanErr == /\ Is("scanerr") /\ SplitScan /\ pc'[Split] = "errsend" /\ Adv /\ Keep
 EScanCtx == /\ Is("scanctx") /\ SplitScan /\ pc'[Split] = "exit" /\ ctxDone /\ Adv /\ Keep
-EScanEnd == /\ Is("srcexit") /\ pc[Split] = "scan" /\ SplitScan /\ pc'[Split] = "exit" /\ UNCHANGED <<l, alive, logged, sentEarly>>
+EScanEnd == /\ Is("srcexit") /\ Entry = "md" /\ pc[Split] = "scan" /\ SplitScan /\ pc'[Split] = "exit" /\ UNCHANGED <<l, alive, logged, sentEarly>>
 
 \* merged hand-over: sender Ev.i (0: splitter/feeder) -> worker Ev.j of stage Ev.s, block Ev.b
 EXfer ==
@@ -65,10 +65,13 @@ ERecvCtx    == Is("recvctx")    /\ RecvCancel(WkE) /\ Adv /\ Keep
 ERecvClosed == Is("recvclosed") /\ RecvClosed(WkE) /\ Adv /\ Keep
 
 \* X.errsend.pre / X.send.pre / sink.lock / sink.done : the outcome of the local computation
-EWorkErr  == Is("workerr")  /\ item[WkE] = Ev.b /\ Work(WkE) /\ pc'[WkE] = "errsend" /\ Adv /\ Keep
+EWorkErr  == /\ Is("workerr")
+             /\ \/ pc[WkE] = "errsend" /\ UNCHANGED vars                 \* (text sink: already there after the failed write)
+                \/ item[WkE] = Ev.b /\ Work(WkE) /\ pc'[WkE] = "errsend"
+             /\ Adv /\ Keep
 EWorkSend == Is("worksend") /\ item[WkE] = Ev.b /\ Work(WkE) /\ pc'[WkE] = "send" /\ Adv /\ Keep
-ELock     == Is("lock")     /\ item[WkE] = Ev.b /\ Work(WkE) /\ pc'[WkE] = "w1" /\ Adv /\ Keep
-EUnlock   == Is("unlock")   /\ WriteBoth(WkE) /\ Adv /\ Keep
+ELock     == Is("lock")     /\ item[WkE] = Ev.b /\ Work(WkE) /\ pc'[WkE] \in {"w1", "wfail"} /\ Adv /\ Keep
+EUnlock   == Is("unlock")   /\ (WriteBoth(WkE) \/ WriteFail(WkE)) /\ Adv /\ Keep
 ESinkDone == Is("sinkdone") /\ pc[WkE] = "work" /\ Work(WkE) /\ pc'[WkE] = "recv" /\ Adv /\ Keep
 
 \* X.errsend.post : the send statement is over.  Which arm of `select { errc <- err | <-ctx.Done() }` was
